@@ -86,3 +86,7 @@ theorem addall_cat (s t : List α) (ht : t.Nodup) (hd : ∀ x ∈ t, x ∉ s) : 
       simp only [List.mem_append, not_or]
       exact ⟨hd x (by simp), hxt⟩
     simp [this]
+
+/-- smap_nil / smap_snoc: `smap M s` is `List.map M s` -/
+theorem smap_nil {β : Type} (f : α → β) : ([] : List α).map f = [] := rfl
+theorem smap_snoc {β : Type} (f : α → β) (s : List α) (x : α) : (s ++ [x]).map f = s.map f ++ [f x] := by simp
